@@ -13,8 +13,14 @@ import (
 // Rules added in the fourth round (seeded changes G/H and the reading they forced).
 
 func init() {
-	t513 := "the writer's escape table covers the reader's: in the Pack of the two JSON-framed protocols the body (MarshalBody, through OnPack) and the service method reach the frame only through an escaper that distinguishes the quote (ends the literal for gjson), the backslash (starts an escape) and every control byte below 0x20 (gjson truncates an escaped string there); a Replace chain or strconv.Quote (\\x escapes gjson does not know) is not such an escaper"
+	t513 := "the writer's escape table covers the reader's: in the Pack of the two JSON-framed protocols the body (MarshalBody, through OnPack) and the service method reach the frame only through an escaper that distinguishes the quote (ends the literal for gjson), the backslash (starts an escape) and every control byte below 0x20 (gjson truncates an escaped string there); a Replace chain, strconv.Quote (\\x escapes gjson does not know) or an escaper that decodes the bytes as UTF-8 (invalid sequences replaced by U+FFFD) is not such an escaper"
 	register(&Rule{ID: "C05.13", Prop: "C05", Min: 4, Text: t513, Run: runJSONEscaping})
+	register(&Rule{ID: "C14.9", Prop: "C14", Min: 8,
+		Text: "no two goroutines share a pooled buffer: a filter or protocol never returns bytes of a ByteBuffer it has released (same obligations as C12.6) - the next Pack/Unpack anywhere in the process takes that buffer from the pool and writes it while the first payload is still being framed (a data race on the bytes and a torn frame)",
+		Run:  runPooledBufferEscape})
+	register(&Rule{ID: "C11.10", Prop: "C11", Min: 4,
+		Text: "an encoded body survives the JSON-framed protocols byte for byte (same obligations as C05.13): codec output is binary in general (protobuf/thrift varints, non-UTF-8 strings), so the frame's escaper must carry every byte - " + t513,
+		Run:  runJSONEscaping})
 	register(&Rule{ID: "C07.15", Prop: "C07", Min: 4,
 		Text: "the closed state is reached and the disconnect hook runs when the framework closes a session itself: code running under the handler wait-group reaches session.Close only through a `go` statement (same obligations as C06.6) - on an unsupported message type a synchronous Close waits for its own goroutine, the session stays ActiveClosing for ever and PostDisconnect never runs",
 		Run:  runC06_6})
@@ -116,6 +122,26 @@ func distinguishedBytes(fn *ssa.Function) (set byteSet, tableDriven bool) {
 	return
 }
 
+// decodesUTF8 names the utf8 decoding call of an escaper that treats its input as text (lossy for arbitrary bytes).
+func decodesUTF8(fn *ssa.Function) string {
+	found := ""
+	for _, f := range WithAnon(fn) {
+		for _, call := range AllCalls(f) {
+			if o := CalleeObj(call); o != nil && o.Pkg() != nil && o.Pkg().Path() == "unicode/utf8" && (strings.HasPrefix(o.Name(), "Decode") || strings.HasPrefix(o.Name(), "Valid")) {
+				found = "utf8." + o.Name()
+			}
+		}
+		Instrs(f, func(i ssa.Instruction) {
+			if rg, ok := i.(*ssa.Range); ok {
+				if b, isB := rg.X.Type().Underlying().(*types.Basic); isB && b.Kind() == types.String {
+					found = "range over a string decodes runes"
+				}
+			}
+		})
+	}
+	return found
+}
+
 func isConvOfByte(v ssa.Value) bool {
 	if cv, ok := v.(*ssa.Convert); ok {
 		return isByteTyped(cv.X)
@@ -150,6 +176,10 @@ func followToFrame(p *Prog, fn *ssa.Function, src ssa.Value, req *byteSet) []esc
 		set, table := distinguishedBytes(f)
 		miss := set.missing(req)
 		name := FnName(f)
+		if dec := decodesUTF8(f); dec != "" {
+			out = append(out, escOutcome{via: name, pos: pos, ok: false, what: "escaper " + name + " reads the bytes as UTF-8 text (" + dec + "): an invalid sequence - any protobuf/thrift varint >= 128, any binary body - is replaced by U+FFFD instead of being carried"})
+			return
+		}
 		switch {
 		case len(miss) == 0:
 			out = append(out, escOutcome{via: name, pos: pos, ok: true, what: "escaped by " + name + " (distinguishes the quote, the backslash and the control bytes)"})
@@ -364,6 +394,9 @@ func init() {
 	register(&Rule{ID: "C06.11", Prop: "C06", Min: 2,
 		Text: "a frame within the read limit does not inflate beyond it: every read-to-exhaustion (ReadAll / io.Copy / ReadFrom) of a compress/* reader in shipped code goes through io.LimitReader whose bound derives from the configured limit (xfer.UnpackSizeLimit() or socket.MessageSizeLimit()), and socket.SetMessageSizeLimit hands the limit it stored to xfer.SetUnpackSizeLimit on every path",
 		Run: runC06_11})
+	register(&Rule{ID: "C12.12", Prop: "C12", Min: 2,
+		Text: "unpacking restores every payload the receiver accepts: the bound the gzip filter inflates to is the configured message size limit on every path of SetMessageSizeLimit, including the one that restores the default (same obligations as C06.11) - a stale smaller bound makes the filter refuse payloads that are within the limit",
+		Run:  runC06_11})
 }
 
 func unboxIface(v ssa.Value) ssa.Value {
@@ -865,5 +898,168 @@ func runC06_12(c *Ctx) {
 	c.Hold("log rendering path scanned for indexes without a floor", "", fmt.Sprintf("%d functions reachable from printRunLog, %d variable index expression(s), all with a lower bound >= 0", len(fns), nIdx))
 	if len(fns) < 5 || nIdx == 0 {
 		c.Undec("log rendering path", "", fmt.Sprintf("only %d functions / %d variable indexes reachable from printRunLog", len(fns), nIdx))
+	}
+}
+
+// ---------------------------------------------------------------------------------------------------------------
+// C18.12  a configuration update never refills the bucket
+
+func init() {
+	register(&Rule{ID: "C18.12", Prop: "C18", Min: 1,
+		Text: "tokens appear only with time: no function reachable from qpsLimiter.update (static calls, depth <= 3, same package) writes qpsLimiter.tokens - the bucket is filled by the constructor and by the refill tick only, so an Update that changes the interval cannot hand a drained bucket a second capacity's worth of admissions",
+		Run: runC18_12})
+	register(&Rule{ID: "C16.9", Prop: "C16", Min: 1,
+		Text: "a rejected connection is not listed afterwards even when an accept hook swapped the socket: ModifySocket restores the id read before socket.Reset (same obligations as C07.13) - otherwise the index keeps the rejected session under the id a hook gave it while closeLocked deletes under the remote address",
+		Run:  runC07_13})
+	register(&Rule{ID: "C18.11", Prop: "C18", Min: 1,
+		Text: "a slot is released when the session has ended, not when it starts closing: in closeLocked the disconnect hook (where the overloader releases the slot) comes after the waits for running handlers and after socket.Close (same obligations as C08.1)",
+		Run:  runC08_1})
+}
+
+func runC18_12(c *Ctx) {
+	p := c.P
+	upd := p.Fn(olPkg, "qpsLimiter", "update")
+	qN, tokIdx := p.FieldIndex(olPkg, "qpsLimiter", "tokens")
+	seen := map[*ssa.Function]bool{}
+	var fns []*ssa.Function
+	var rec func(f *ssa.Function, d int)
+	rec = func(f *ssa.Function, d int) {
+		if f == nil || seen[f] || len(f.Blocks) == 0 || d > 3 || f.Pkg != upd.Pkg {
+			return
+		}
+		seen[f] = true
+		fns = append(fns, f)
+		for _, call := range AllCalls(f) {
+			if _, isGo := call.(*ssa.Go); isGo {
+				continue // the refill goroutine is the tick path
+			}
+			rec(call.Common().StaticCallee(), d+1)
+		}
+	}
+	rec(upd, 0)
+	bad := ""
+	var badPos token.Pos
+	for _, acc := range p.FieldAccesses(qN) {
+		if acc.Field.Index != tokIdx || !seen[acc.Fn] {
+			continue
+		}
+		if acc.Kind == AccRead {
+			continue
+		}
+		if acc.Kind == AccAtomic && strings.HasPrefix(acc.Via, "Load") {
+			continue
+		}
+		bad = FnName(acc.Fn)
+		badPos = acc.Instr.Pos()
+	}
+	c.fact("field-access-set")
+	pos := p.Pos(upd.Pos())
+	if bad != "" {
+		pos = p.Pos(badPos)
+	}
+	c.Check(bad == "", "qpsLimiter.update leaves the tokens alone", pos, fmt.Sprintf("%d function(s) reachable from update, none writes tokens", len(fns)),
+		bad+" (reachable from qpsLimiter.update) writes the token count: an Overloader.Update that changes the interval refills a drained bucket at once - twice the capacity is admitted within one interval")
+}
+
+// ---------------------------------------------------------------------------------------------------------------
+// C20.9 / C01.14  a copied metadata container owns its bytes
+
+func init() {
+	t := "Args.CopyTo is a deep copy on every path: in utils.copyArgs no builtin copy of argsKV elements takes the source as its second operand (that copies the slice headers: both containers then share the key/value buffers), and every store into a destination slot's key/value is append(slot[:0], source bytes...) - InputMeta()/CopyMeta() hand such copies to users who keep them while the pooled source container decodes later messages in place"
+	register(&Rule{ID: "C20.9", Prop: "C20", Min: 3, Text: t, Run: runCopyArgsDeep})
+	register(&Rule{ID: "C01.14", Prop: "C01", Min: 3, Text: "reply metadata handed to the caller is not overwritten by later messages: " + t, Run: runCopyArgsDeep})
+}
+
+func derivesFromParam(v ssa.Value, prm *ssa.Parameter, depth int) bool {
+	if depth > 8 {
+		return false
+	}
+	switch x := v.(type) {
+	case *ssa.Parameter:
+		return x == prm
+	case *ssa.Slice:
+		return derivesFromParam(x.X, prm, depth+1)
+	case *ssa.ChangeType:
+		return derivesFromParam(x.X, prm, depth+1)
+	case *ssa.Phi:
+		for _, e := range x.Edges {
+			if derivesFromParam(e, prm, depth+1) {
+				return true
+			}
+		}
+	}
+	return false
+}
+
+func runCopyArgsDeep(c *Ctx) {
+	p := c.P
+	utilsPkg := Root + "/utils"
+	fn := p.Fn(utilsPkg, "", "copyArgs")
+	kvN, keyIdx := p.FieldIndex(utilsPkg, "argsKV", "key")
+	_, valIdx := p.FieldIndex(utilsPkg, "argsKV", "value")
+	if len(fn.Params) != 2 {
+		c.Undec("copyArgs signature", p.Pos(fn.Pos()), "copyArgs(dst, src) expected: idiom not recognised")
+		return
+	}
+	src := fn.Params[1]
+	// (1) no element-wise struct copy out of the source
+	bad := ""
+	var badPos token.Pos
+	for _, call := range AllCalls(fn) {
+		b, ok := call.Common().Value.(*ssa.Builtin)
+		if !ok || b.Name() != "copy" {
+			continue
+		}
+		args := call.Common().Args
+		if sl, isSl := args[1].Type().Underlying().(*types.Slice); isSl && derefNamed(sl.Elem()) == kvN || isSl && sl.Elem() == types.Type(kvN) {
+			if derivesFromParam(args[1], src, 0) {
+				bad, badPos = "copy(..., src) copies the argsKV structs of the source", call.Pos()
+			}
+		}
+	}
+	c.fact("value-backward")
+	pos := p.Pos(fn.Pos())
+	if bad != "" {
+		pos = p.Pos(badPos)
+	}
+	c.Check(bad == "", "copyArgs: no struct copy out of the source", pos, "only the destination's own slots are moved when it grows", bad+": the slice headers are copied, so the following append(slot[:0], ...) copies each buffer onto itself and the 'copy' shares every key/value buffer with the source - metadata kept by a caller (InputMeta, CopyMeta) turns into the pairs of later messages")
+	// (2) every store into a slot's key/value is append(slot.field[:0], ...)
+	for _, f := range []struct {
+		idx  int
+		name string
+	}{{keyIdx, "key"}, {valIdx, "value"}} {
+		n, okAll := 0, true
+		var where token.Pos
+		Instrs(fn, func(i ssa.Instruction) {
+			st, ok := i.(*ssa.Store)
+			if !ok || !isFieldAddr(st.Addr, kvN, f.idx) {
+				return
+			}
+			n++
+			call, isCall := st.Val.(*ssa.Call)
+			good := false
+			if isCall {
+				if b, isB := call.Call.Value.(*ssa.Builtin); isB && b.Name() == "append" {
+					if sl, isSl := call.Call.Args[0].(*ssa.Slice); isSl && isFieldLoad(sl.X, kvN, f.idx) {
+						if hi, isK := ConstIntOf(sl.High); isK && hi == 0 {
+							good = true
+						}
+					}
+				}
+			}
+			if !good {
+				okAll = false
+				where = st.Pos()
+			}
+		})
+		pos := p.Pos(fn.Pos())
+		if !okAll {
+			pos = p.Pos(where)
+		}
+		if n == 0 {
+			c.Undec("copyArgs: "+f.name+" copied by append", pos, "no store into argsKV."+f.name+" found in copyArgs: idiom not recognised")
+			continue
+		}
+		c.Check(okAll, "copyArgs: "+f.name+" copied by append", pos, "slot."+f.name+" = append(slot."+f.name+"[:0], ...)", "a destination slot's "+f.name+" is assigned something else than append(slot."+f.name+"[:0], bytes...): the destination shares (or keeps) a buffer instead of owning a copy")
 	}
 }
